@@ -35,6 +35,16 @@ CHECKS = {
    note="Trusted: engine/bcv, harness snapshot. CLI file handling (cmd/tengo) itself is not driven, only Bytecode.Encode/Decode which it calls.",
    technique="bounded exhaustive program enumeration with differential execution of transformed bytecode + explicit-state structural check",
    engine="bcv", design="4/C12"),
+ "C14": dict(
+   text="Every failing program of the family failing-operation kinds (23) x statement forms holding the failing expression (10) x placements (main, if/else/for/for-in bodies, after eliminated dead code, nested function, closure over captured variables, copied function, module function, module top level) x call depth 0..2/3 x the statement form of each active call is run; the reference interpreter supplies the innermost executing statement and the active call chain, the generator's printer the span of every statement: the first location must lie in the failing statement's own text (its span minus nested statements), each following trace line inside the statement containing the corresponding active call, one line per active call, right file names. Sentinel errors (index out of bounds, stack overflow, allocation limit, bytes limit) and host-function errors are checked with errors.Is/errors.As through Run and RunContext.",
+   note="Trusted: engine/ref for the failing statement and call chain, engine/gen printer spans. Error text is not compared, only positions and identities.",
+   technique="bounded exhaustive enumeration of failing programs; oracle = generator span map + reference interpreter's failure location/call chain",
+   engine="ref", design="4/C14"),
+ "C16": dict(
+   text="Parameter shapes (4) x extra locals (0..2) x per-iteration closure capture x 14 syntactic call contexts (7 in claimed tail position incl. && / || right operands, parentheses, if/else, loop, map-method indirection; 7 not) x recursion depths at every capacity boundary (1021..1025, 2047..2049) and far beyond (1e5, 1e6 thorough), compared with the reference interpreter which runs syntactic tail self-calls as a loop: tail-position programs must complete at every depth with the loop-equivalent value and captured per-iteration parameters; non-tail programs give the reference value within capacity and an error beyond it, never a wrong value.",
+   note="Trusted: engine/ref (tail position = documented rule). Ternary branches and a discarded call as last statement are unclaimed optimisations: value-or-error accepted, wrong values not.",
+   technique="bounded exhaustive enumeration of recursive function shapes x depths against a reference interpreter with explicit tail-call semantics",
+   engine="ref", design="4/C16"),
  "C17": dict(
    text="Exhaustive enumeration of the documented directive grammar (32 flag subsets x width x precision x explicit argument index x 20 verbs) against every argument list of length 0-3 over per-type alphabets (boundary ints, special floats, invalid UTF-8 strings, bools, bytes; '*' operands), hand-written re-indexing shapes, and all format strings up to length 5/6 over a 17-symbol alphabet; each compared with fmt.Sprintf of the host toolchain (minus the three exclusions the property lists), through tengo.Format, builtin format and fmt.sprintf; plus the same strings under a small MaxStringLen for 'string or limit error, never a panic'.",
    note="Trusted: Go's fmt as executable specification (go1.23), the exclusion logic for %q on non-code-point ints / '#' with %x on floats / EXTRA rendering. Bounded by the alphabets and string length.",
@@ -91,7 +101,7 @@ def main():
         },
         "engines": [
             {"name": "bcv", "path": "engine/bcv, engine/gen", "serves_properties": ["C02", "C03", "C12"], "kind_free_text": "bytecode abstract machine: explicit-state search over (pc,height) and over optimised/unoptimised pc pairs; program families enumerated exhaustively by replayed choice trees"},
-            {"name": "ref", "path": "engine/ref, engine/gen", "serves_properties": ["C01"], "kind_free_text": "definitional reference interpreter over the generator AST + exhaustive program families"},
+            {"name": "ref", "path": "engine/ref, engine/gen", "serves_properties": ["C01", "C14", "C16"], "kind_free_text": "definitional reference interpreter over the generator AST + exhaustive program families"},
             {"name": "enum", "path": "engine/report, engine/val, engine/tg", "serves_properties": sorted(CHECKS), "kind_free_text": "bounded exhaustive enumeration driver: deterministic case lists, parallel execution on the real implementation, violation grouping by signature, known-finding matching, evidence/replay writers"},
         ],
         "checks": checks,
